@@ -405,9 +405,19 @@ pub fn c17_gaps(case: &Case, seed: u64) -> (Vec<Failure>, bool) {
     }
     let mut next = 1 + rng.below(1 << 20);
     let mut map = std::collections::BTreeMap::new();
-    for n in &numbers {
-        map.insert(*n, next);
-        next += 1 + if rng.chance(1, 2) { rng.below(1 << 40) } else { rng.below(3) };
+    // one case in eight: the numbering ends at the largest number there is
+    let at_top = rng.chance(1, 8);
+    if at_top {
+        let mut n_hi = u64::MAX;
+        for n in numbers.iter().rev() {
+            map.insert(*n, n_hi);
+            n_hi -= 1 + if rng.chance(1, 2) { rng.below(1 << 40) } else { rng.below(3) };
+        }
+    } else {
+        for n in &numbers {
+            map.insert(*n, next);
+            next += 1 + if rng.chance(1, 2) { rng.below(1 << 40) } else { rng.below(3) };
+        }
     }
     let mut renamed = Image::new();
     for (name, node) in &image {
@@ -421,6 +431,17 @@ pub fn c17_gaps(case: &Case, seed: u64) -> (Vec<Failure>, bool) {
         }
     }
     let highest = *map.values().max().unwrap();
+    let lowest = *map.values().min().unwrap();
+    // foreign non-regular entries named like WAL files *below* the first real one: nothing may ever touch them
+    let mut planted: Vec<String> = Vec::new();
+    for _ in 0..rng.usize_below(3) {
+        let n = rng.below(lowest);
+        let name = wal_name(n);
+        if !renamed.contains_key(&name) {
+            renamed.insert(name.clone(), if rng.chance(1, 2) { crate::simfs::Node::Symlink } else { crate::simfs::Node::Dir });
+            planted.push(name);
+        }
+    }
     let idx = case.ops.len();
     match recover(&renamed, &d.names, d.world.policy, &case.knobs) {
         Err((e, _)) => out.push(fail("C17", "gaps-open-failed", idx, format!("WAL files renumbered {:?} -> {:?} (order preserved): {}", numbers, map.values().collect::<Vec<_>>(), crate::crash::open_fail_text(&e)))),
@@ -434,9 +455,29 @@ pub fn c17_gaps(case: &Case, seed: u64) -> (Vec<Failure>, bool) {
             let mut cd = Driver::adopt(w, d.model.clone(), case.probe_seed ^ seed);
             cd.light = true;
             let existing: Vec<usize> = (0..cd.names.len()).filter(|&q| cd.model.queues.contains_key(&cd.names[q])).collect();
+            if at_top {
+                // no number is left for a new file: only a clean restart is asked of the log
+                cd.step(Op::Restart { policy: None });
+                if let Some(f) = cd.failures.iter().find(|f| f.prop == "C05" || f.prop == "C01" || f.prop == "C17") {
+                    out.push(fail("C17", "gaps-continuation-diverged", idx, format!("WAL files renumbered up to u64::MAX, open, clean restart: {}", f.detail)));
+                }
+                return (out, true);
+            }
             if let Some(&q) = existing.first() {
                 cd.step(Op::Append { q, pos: None, lens: vec![100_000, 50_000], uid: 3_000_001 });
+                // release everything so that the GC pass has files to remove
+                let all: Vec<(usize, u64)> = (0..cd.names.len()).filter_map(|qq| cd.model.queues.get(&cd.names[qq]).and_then(|m| m.recs.last().map(|r| (qq, r.pos)))).collect();
+                for (qq, last) in all {
+                    cd.step(Op::Truncate { q: qq, upto: last });
+                }
                 cd.step(Op::Restart { policy: None });
+                if let Some(f) = cd.failures.iter().find(|f| f.prop == "C17") {
+                    out.push(fail("C17", "gaps-foreign-touched", idx, format!("after opening renumbered WAL files: {}", f.detail)));
+                }
+                let img_now = cd.world.image();
+                if let Some(name) = planted.iter().find(|n| !img_now.contains_key(*n)) {
+                    out.push(fail("C17", "gaps-foreign-touched", idx, format!("foreign entry {name} (numbered below the first WAL file) was removed")));
+                }
                 if let Some(f) = cd.failures.iter().find(|f| f.prop == "C05" || f.prop == "C01") {
                     out.push(fail("C17", "gaps-continuation-diverged", idx, format!("after opening renumbered WAL files: {}", f.detail)));
                 }
